@@ -196,10 +196,11 @@ class SymTD(Sym):
 
 
 class SymDT(Sym):
-    __slots__ = ("us", "src", "fields")
+    __slots__ = ("us", "src", "fields", "days")
 
-    def __init__(self, us=None, src=None, fields=None):
+    def __init__(self, us=None, src=None, fields=None, days=None):
         self.us, self.src = us, src
+        self.days = days            # whole days since 0001-01-01 when built from fields
         self.fields = fields        # (year, month, day, hour, minute, second, microsecond) when built from fields
 
     def __repr__(self):
